@@ -34,10 +34,12 @@ for sd in sorted(glob.glob(os.path.join(ROOT, "seeded", "C*-*"))):
         if m:
             sig = re.search(r"sig=(\S+?):? ", l)
             checks[prop] = {"result": m.group(1), "signature": sig.group(1).rstrip(":") if sig else "", "line": l[:400]}
+    # verdicts of this run replace the earlier ones per property; properties not re-run keep theirs
+    merged = dict(meta.get("checks", {}))
+    merged.update(checks)
+    checks = merged
     if checks:
         meta["checks"] = checks
-    else:
-        checks = meta.get("checks", {})  # seeds not in this run keep the verdicts of the run that covered them
     json.dump(meta, open(mp, "w"), indent=1)
     c = meta.get("confirmed_by_me", {})
     valid = c.get("applies") and c.get("compiles") and c.get("existing_suite_passes_with_change") and c.get("demo_fails_with_change") and c.get("demo_passes_without_change")
